@@ -26,16 +26,17 @@ type HSpec struct {
 
 // RouteSpec is one route registration.
 type RouteSpec struct {
-	Method  string // "GET", "POST", "*", "GET,POST", "COMBO"
-	Pat     int
-	Pattern string // local pattern (without group prefixes)
-	Full    string // full pattern (with group prefixes), computed
-	Name    string
-	Headers []string
-	Hs      []HSpec
-	Inst    []string // request paths that this route is meant to admit (full)
-	Near    []string // near misses (full)
-	Index   int
+	Method   string // "GET", "POST", "*", "GET,POST", "COMBO"
+	Pat      int
+	Pattern  string // local pattern (without group prefixes)
+	Full     string // full pattern (with group prefixes), computed
+	Name     string
+	Headers  []string
+	Hs       []HSpec
+	Inst     []string // request paths that this route is meant to admit (full)
+	Near     []string // near misses (full)
+	AutoHead bool     // AutoHead is switched to this value right before the route is registered
+	Index    int
 }
 
 // GroupSpec is one Group() call.
@@ -65,20 +66,24 @@ type StaticSpec struct {
 
 // Setup is the whole set-up program of one flamego instance.
 type Setup struct {
-	Env       int // 0 dev, 1 prod, 2 test
-	Mw        []HSpec
-	Batches   []int // sizes of the Use() calls
-	Nodes     []Node
-	NotFound  []HSpec // nil: flamego's default
-	Action    *HSpec
-	AutoHead  bool
-	Befores   int
-	Static    *StaticSpec
-	Svc       bool
-	FinalEcho bool
-	Wrapper   bool         // a HandlerWrapper (identity) is installed before the routes are registered
-	EnvLate   bool         // the environment is switched to Env only after set-up (middleware constructed under another one)
-	Routes    []*RouteSpec // flattened, in registration order
+	Env           int // 0 dev, 1 prod, 2 test
+	Mw            []HSpec
+	Batches       []int // sizes of the Use() calls
+	Nodes         []Node
+	NotFound      []HSpec // nil: flamego's default
+	Action        *HSpec
+	AutoHead      bool
+	Befores       int
+	Static        *StaticSpec
+	Svc           bool
+	FinalEcho     bool
+	Wrapper       bool         // a HandlerWrapper (identity) is installed before the routes are registered
+	LateMw        int          // this many of the trailing application middleware are added with Use() only after the routes exist
+	ViaHandlers   bool         // the middleware stack is installed with Handlers() (replacing a throw-away stack) instead of Use()
+	NotFoundTwice bool         // NotFound() is called with a throw-away handler first
+	SubgroupFirst bool         // inside a group, the nested group is registered before the group's own routes
+	EnvLate       bool         // the environment is switched to Env only after set-up (middleware constructed under another one)
+	Routes        []*RouteSpec // flattened, in registration order
 }
 
 // Pat is a route pattern with request paths that instantiate or nearly miss it.
@@ -125,31 +130,32 @@ var Hostile = []string{"/nope", "//", "/%zz", "/u/\x00", "/f/../u/x", "/static/.
 type Profile struct {
 	Patterns []Pat
 	// set-up
-	MwCounts     []int // candidate numbers of simulated application middleware
-	LoggerPm     int
-	RecoveryPm   int
-	RecoveryAny  bool // Recovery may sit at group or route level instead
-	RecoveryMust bool
-	RendererPm   int
-	StaticPm     int
-	SvcPm        int
-	EnvLatePm    int
-	WrapperPm    int
-	ReqLoggerPm  int // given Logger: a middleware in front of it maps a request-scoped logger
-	TwinMethodPm int // a route gets a sibling registration of the same path for another method, with its own handlers
-	GroupPm      int
-	ActionPm     int
-	NotFoundPm   int
-	BeforesPm    int
-	AutoHeadPm   int
-	MinRoutes    int
-	MaxRoutes    int
-	MaxRouteHs   int
-	Shapes       []int // shape weights indexed by shape
-	MwShapes     []int // shape weights for handlers that are not the last of their route (nil: Shapes)
-	Envs         []int // candidate environments
-	HeadersPm    int
-	NamedPm      int
+	MwCounts      []int // candidate numbers of simulated application middleware
+	LoggerPm      int
+	RecoveryPm    int
+	RecoveryAny   bool // Recovery may sit at group or route level instead
+	RecoveryMust  bool
+	RendererPm    int
+	StaticPm      int
+	SvcPm         int
+	EnvLatePm     int
+	WrapperPm     int
+	RegVariantsPm int // less common registration sequences (Handlers(), NotFound() twice, Use() after routes, per-route AutoHead, empty group paths, ROUTES with string methods)
+	ReqLoggerPm   int // given Logger: a middleware in front of it maps a request-scoped logger
+	TwinMethodPm  int // a route gets a sibling registration of the same path for another method, with its own handlers
+	GroupPm       int
+	ActionPm      int
+	NotFoundPm    int
+	BeforesPm     int
+	AutoHeadPm    int
+	MinRoutes     int
+	MaxRoutes     int
+	MaxRouteHs    int
+	Shapes        []int // shape weights indexed by shape
+	MwShapes      []int // shape weights for handlers that are not the last of their route (nil: Shapes)
+	Envs          []int // candidate environments
+	HeadersPm     int
+	NamedPm       int
 	// programs
 	Ops         []int // op weights indexed by op
 	MaxActs     int
@@ -206,6 +212,9 @@ func GenSetup(g *tape.Stream, p *Profile) *Setup {
 	s.Env = p.Envs[g.Intn(len(p.Envs))]
 	s.EnvLate = g.Chance(p.EnvLatePm)
 	s.Wrapper = g.Chance(p.WrapperPm)
+	s.ViaHandlers = g.Chance(p.RegVariantsPm)
+	s.NotFoundTwice = g.Chance(p.RegVariantsPm)
+	s.SubgroupFirst = g.Chance(p.RegVariantsPm)
 	haveRender := false
 	recoveryPlaced := false
 	wantRecovery := p.RecoveryMust || g.Chance(p.RecoveryPm)
@@ -259,6 +268,12 @@ func GenSetup(g *tape.Stream, p *Profile) *Setup {
 		s.Batches = append(s.Batches, b)
 		left -= b
 	}
+	if g.Chance(p.RegVariantsPm) && len(s.Mw) > 1 {
+		s.LateMw = 1 + g.Intn(2)
+		if s.LateMw >= len(s.Mw) {
+			s.LateMw = len(s.Mw) - 1
+		}
+	}
 	s.Svc = g.Chance(p.SvcPm)
 	s.AutoHead = g.Chance(p.AutoHeadPm)
 	if g.Chance(p.BeforesPm) {
@@ -287,6 +302,13 @@ func GenSetup(g *tape.Stream, p *Profile) *Setup {
 		pat := p.Patterns[pi]
 		rs := &RouteSpec{Pat: pi, Pattern: pat.P}
 		rs.Method = []string{"GET", "*", "POST", "GET,POST", "COMBO"}[g.Weighted(6, 2, 1, 1, 1)]
+		if rs.Method == "GET,POST" && g.Chance(p.RegVariantsPm) {
+			rs.Method = "ROUTES-STR" // Routes(path, "GET", "POST", handlers...): a method given as a leading string handler
+		}
+		rs.AutoHead = s.AutoHead
+		if g.Chance(p.RegVariantsPm) {
+			rs.AutoHead = !s.AutoHead
+		}
 		nh := 1 + g.Intn(p.MaxRouteHs)
 		for k := 0; k < nh; k++ {
 			rs.Hs = append(rs.Hs, HSpec{Kind: HkSim, Shape: pickShape(g, p, k == nh-1, haveRender)})
@@ -317,6 +339,9 @@ func GenSetup(g *tape.Stream, p *Profile) *Setup {
 		g.Begin("group")
 		cut := g.Intn(len(routes) + 1)
 		grp := &GroupSpec{Path: "/grp"}
+		if g.Chance(p.RegVariantsPm) {
+			grp.Path = "" // a group that only contributes handlers
+		}
 		ngh := g.Intn(3)
 		for k := 0; k < ngh; k++ {
 			grp.Hs = append(grp.Hs, HSpec{Kind: HkSim, Shape: pickShape(g, p, false, haveRender)})
@@ -331,10 +356,15 @@ func GenSetup(g *tape.Stream, p *Profile) *Setup {
 			for _, r := range inner[cut2:] {
 				sub.Nodes = append(sub.Nodes, Node{Route: r})
 			}
+			if s.SubgroupFirst {
+				grp.Nodes = append(grp.Nodes, Node{Group: sub})
+			}
 			for _, r := range inner[:cut2] {
 				grp.Nodes = append(grp.Nodes, Node{Route: r})
 			}
-			grp.Nodes = append(grp.Nodes, Node{Group: sub})
+			if !s.SubgroupFirst {
+				grp.Nodes = append(grp.Nodes, Node{Group: sub})
+			}
 		} else {
 			for _, r := range inner {
 				grp.Nodes = append(grp.Nodes, Node{Route: r})
@@ -429,6 +459,8 @@ func MethodsOf(r *RouteSpec, autoHead bool) []string {
 	switch r.Method {
 	case "*":
 		return []string{"GET", "POST", "PUT", "DELETE", "PATCH", "OPTIONS", "HEAD"}
+	case "ROUTES-STR":
+		return []string{"GET", "POST"}
 	case "GET,POST", "COMBO":
 		if autoHead && r.Method == "COMBO" {
 			return []string{"GET", "POST", "HEAD"}
